@@ -3,7 +3,7 @@
 
      regexp ::= branch ( '|' branch )*        branch ::= ( run | group | qchar )*
      group  ::= '(' regexp ')' | '(?:' regexp ')'      run ::= ordinary characters
-     qchar  ::= ordinary character ( '?' | '*' | '+' ) [ '?' ]
+     qchar  ::= ordinary character ( '?' | '*' | '+' | '{n}' | '{n,}' | '{n,m}' ) [ '?' ]
    and, under XPath, the anchors '^' and '$' as pieces of a branch.
 
    Grammar trees [branch] / [alt] are printed to pattern text by [show_b] / [show_a]; they have a
@@ -16,11 +16,31 @@ From RX Require Import Base.Prelude Base.InvList Tables.Consts Model.Case Model.
      Proofs.PlainPattern Proofs.FrameFacts.
 
 (* ---------------------------------------------------------------- grammar trees *)
-Inductive qk := QOpt | QStar | QPlus.
-Definition qsym (k : qk) : N := match k with QOpt => 63 | QStar => 42 | QPlus => 43 end.
-Definition qmin (k : qk) : N := match k with QPlus => 1 | _ => 0 end.
-Definition qmax (k : qk) : N := match k with QOpt => 1 | _ => umax end.              (* the engine's bound *)
-Definition qmaxo (k : qk) : option N := match k with QOpt => Some 1%N | _ => None end.   (* the specification's *)
+(* a counted quantifier {n}, {n,} or {n,m}: the bounds as they are written, in decimal digits *)
+Inductive brk := BrExact | BrOpen | BrTo (ds2 : list N).
+Inductive qk := QOpt | QStar | QPlus | QBr (ds : list N) (m : brk).
+Definition dec (ds : list N) : N := fold_left (fun a d => a * 10 + (d - 48))%N ds 0%N.
+Definition qsym (k : qk) : N := match k with QOpt => 63 | QStar => 42 | QPlus => 43 | QBr _ _ => 123 end.
+(* what follows the first symbol of the quantifier *)
+Definition qtl (k : qk) : list N :=
+  match k with
+  | QBr ds m => ds ++ match m with BrExact => [] | BrOpen => [44%N] | BrTo ds2 => 44%N :: ds2 end ++ [125%N]
+  | _ => []
+  end.
+Definition qmin (k : qk) : N := match k with QPlus => 1 | QBr ds _ => dec ds | _ => 0 end.
+Definition qmax (k : qk) : N :=                                                       (* the engine's bound *)
+  match k with QOpt => 1 | QBr ds BrExact => dec ds | QBr _ (BrTo ds2) => dec ds2 | _ => umax end.
+Definition qmaxo (k : qk) : option N :=                                               (* the specification's *)
+  match k with QOpt => Some 1%N | QBr ds BrExact => Some (dec ds) | QBr _ (BrTo ds2) => Some (dec ds2) | _ => None end.
+(* well-formed bounds: digits only, at most 19 of them (so that they fit a 64-bit word), n <= m, m > 0,
+   and not {1} / {1,1} (which the compiler drops: the atom itself is returned) *)
+Definition digs (ds : list N) : bool := negb (Nat.eqb (length ds) 0) && forallb is_digit ds && Nat.leb (length ds) 19.
+Definition okq (k : qk) : bool :=
+  match k with
+  | QBr ds m => digs ds && match m with BrTo ds2 => digs ds2 && (dec ds <=? dec ds2)%N | _ => true end
+                && (0 <? qmax k)%N && negb ((qmin k =? 1)%N && (qmax k =? 1)%N)
+  | _ => true
+  end.
 
 Inductive branch :=
 | BEnd (cs : list N)                                   (* a final run, possibly empty *)
@@ -39,7 +59,7 @@ Fixpoint show_b (b : branch) : list N :=
   match b with
   | BEnd cs => cs
   | BGrp cs cap a b' => cs ++ 40%N :: (if cap then [] else [63%N; 58%N]) ++ show_a a ++ 41%N :: show_b b'
-  | BQ cs c k rel b' => cs ++ c :: qsym k :: (if rel then [63%N] else []) ++ show_b b'
+  | BQ cs c k rel b' => cs ++ c :: qsym k :: qtl k ++ (if rel then [63%N] else []) ++ show_b b'
   | BAn cs eol b' => cs ++ (if eol then 36%N else 94%N) :: show_b b'
   end
 with show_a (a : alt) : list N :=
@@ -53,7 +73,7 @@ Fixpoint ok_b (xpath : bool) (b : branch) : bool :=
   match b with
   | BEnd cs => forallb ordinary cs
   | BGrp cs cap a b' => forallb ordinary cs && (cap || xpath) && ok_a xpath a && ok_b xpath b'
-  | BQ cs c k rel b' => forallb ordinary cs && ordinary c && (negb rel || xpath) && ok_b xpath b'
+  | BQ cs c k rel b' => forallb ordinary cs && ordinary c && (negb rel || xpath) && okq k && ok_b xpath b'
   | BAn cs eol b' => forallb ordinary cs && xpath && ok_b xpath b'
   end
 with ok_a (xpath : bool) (a : alt) : bool :=
@@ -61,6 +81,47 @@ with ok_a (xpath : bool) (a : alt) : bool :=
   | AOne b => ok_b xpath b
   | ACons b a' => ok_b xpath b && ok_a xpath a'
   end.
+
+(* --- facts about well-formed bounds --- *)
+Lemma decf_bound : forall ds a, forallb is_digit ds = true ->
+  (fold_left (fun a d => a * 10 + (d - 48)) ds a + 1 <= (a + 1) * 10 ^ N.of_nat (length ds))%N.
+Proof.
+  induction ds as [|d t IH]; intros a Hd.
+  - cbn [fold_left length]. change (10 ^ N.of_nat 0)%N with 1%N. lia.
+  - cbn [forallb] in Hd. apply andb_true_iff in Hd as [Hd Ht]. cbn [fold_left].
+    specialize (IH (a * 10 + (d - 48))%N Ht).
+    unfold is_digit in Hd. apply andb_true_iff in Hd as [D1 D2]. apply N.leb_le in D1, D2.
+    replace (N.of_nat (length (d :: t))) with (N.succ (N.of_nat (length t))) by (cbn [length]; lia).
+    rewrite N.pow_succ_r'. set (P := (10 ^ N.of_nat (length t))%N) in *.
+    assert ((a * 10 + (d - 48) + 1) * P <= (a + 1) * (10 * P))%N; [|lia].
+    replace ((a + 1) * (10 * P))%N with ((a * 10 + 10) * P)%N by lia.
+    apply N.mul_le_mono_r. lia.
+Qed.
+Lemma digs_bound ds : digs ds = true -> (dec ds < umax)%N.
+Proof.
+  unfold digs. intros H. apply andb_true_iff in H as [H L]. apply andb_true_iff in H as [_ D].
+  apply Nat.leb_le in L. pose proof (decf_bound ds 0%N D) as B. fold (dec ds) in B.
+  assert (10 ^ N.of_nat (length ds) <= 10 ^ 19)%N by (apply N.pow_le_mono_r; lia).
+  assert (10 ^ 19 < umax)%N by (vm_compute; reflexivity). lia.
+Qed.
+Lemma okq_facts k : okq k = true ->
+  (0 < qmax k)%N /\ (qmin k <= qmax k)%N /\ mx_opt (qmax k) = qmaxo k
+  /\ match qmaxo k with Some m => (qmin k <= m)%N | None => True end
+  /\ ((qmin k =? 1) && (qmax k =? 1))%N = false.
+Proof.
+  destruct k as [| | |ds m]; intros H.
+  1-3: cbn [qmin qmax qmaxo]; repeat split; try reflexivity; try exact I; try (cbv [umax]; lia).
+  cbn [okq] in H. apply andb_true_iff in H as [H N11]. apply andb_true_iff in H as [H Pos].
+  apply andb_true_iff in H as [D1 Hm]. apply N.ltb_lt in Pos. apply negb_true_iff in N11.
+  pose proof (digs_bound ds D1) as B1.
+  destruct m as [| |ds2]; cbn [qmin qmax qmaxo] in *.
+  - split; [exact Pos|]. split; [lia|]. split; [unfold mx_opt; replace (dec ds <? umax)%N with true by (symmetry; apply N.ltb_lt; exact B1); reflexivity|].
+    split; [lia|exact N11].
+  - split; [exact Pos|]. split; [lia|]. split; [reflexivity|]. split; [exact I|exact N11].
+  - apply andb_true_iff in Hm as [D2 Le]. apply N.leb_le in Le. pose proof (digs_bound ds2 D2) as B2.
+    split; [exact Pos|]. split; [exact Le|]. split; [unfold mx_opt; replace (dec ds2 <? umax)%N with true by (symmetry; apply N.ltb_lt; exact B2); reflexivity|].
+    split; [exact Le|exact N11].
+Qed.
 
 (* what may follow a branch / a regexp in a well-formed pattern *)
 Definition term_b (post : list N) : Prop := post = [] \/ exists t, post = 124%N :: t \/ post = 41%N :: t.
@@ -90,7 +151,7 @@ Proof.
     + cbn [forallb] in Hok. apply andb_true_iff in Hok as [Hc _]. cbn. auto.
   - destruct cs as [|c t]; cbn [app]; [cbn; auto|].
     do 3 (apply andb_true_iff in Hok as [Hok ?]). cbn [forallb] in Hok. apply andb_true_iff in Hok as [Hc _]. cbn. auto.
-  - do 3 (apply andb_true_iff in Hok as [Hok ?]). destruct cs as [|c t]; cbn [app]; [cbn; auto|].
+  - do 4 (apply andb_true_iff in Hok as [Hok ?]). destruct cs as [|c t]; cbn [app]; [cbn; auto|].
     cbn [forallb] in Hok. apply andb_true_iff in Hok as [Hc _]. cbn. auto.
   - do 2 (apply andb_true_iff in Hok as [Hok ?]). destruct cs as [|c t]; cbn [app]; [destruct eol; cbn; auto 10|].
     cbn [forallb] in Hok. apply andb_true_iff in Hok as [Hc _]. cbn. auto.
@@ -164,10 +225,10 @@ Proof.
   unfold lit. destruct (Nat.ltb n (p + length cs)) eqn:L; [intros []|]. apply Nat.ltb_ge in L.
   destruct (starts_with _ _ _); [|intros []]. intros [<-|[]]. lia.
 Qed.
-Lemma Dq_le c k rel p q : p <= n -> In q (Dq c k rel p) -> q <= n.
+Lemma Dq_le c k rel p q : okq k = true -> p <= n -> In q (Dq c k rel p) -> q <= n.
 Proof.
-  intros Hp H. unfold Dq in H. eapply (ends_le fl_of input); [|exact Hp|exact H].
-  cbn [quant_wf]. split; [exact I|]. destruct k; cbn; auto; lia.
+  intros Hk Hp H. unfold Dq in H. eapply (ends_le fl_of input); [|exact Hp|exact H].
+  cbn [quant_wf]. split; [exact I|]. apply (okq_facts k Hk).
 Qed.
 Lemma Dan_le eol p q : p <= n -> In q (Dan eol p) -> q <= n.
 Proof.
@@ -619,30 +680,143 @@ Qed.
 Definition qop (c : N) (k : qk) (rel : bool) : op :=
   (if rel then ORFixed else OGFixed) (OAtom [c]) (qmin k) (qmax k) 1%N.
 
-Lemma quantify_char c k rel st rest : negb rel || xpath = true -> head_fine rest ->
-  skipn (idx st) pat = qsym k :: (if rel then [63%N] else []) ++ rest -> idx st <= len ->
-  quantify pat xpath (OAtom [c]) st = Ok (qop c k rel, adv (if rel then 2 else 1) st).
+(* --- the digits of a counted quantifier --- *)
+Lemma digits_run : forall ds f i acc x t, forallb is_digit ds = true -> is_digit x = false ->
+  skipn i pat = ds ++ x :: t -> length ds <= f ->
+  digits pat f i acc = (i + length ds, fold_left (fun a d => a * 10 + (d - 48))%N ds acc).
 Proof.
-  intros Hx Hh Hs Hi. destruct (skipn_step _ _ _ Hs) as [Hs1 Hlt].
+  induction ds as [|d ds IH]; intros f i acc x t Hd Hx Hs Hf.
+  - cbn [app] in Hs. cbn [length fold_left]. rewrite Nat.add_0_r. destruct f as [|f]; [reflexivity|].
+    cbn [digits]. rewrite at_skipn, Hs. cbn [hd_error]. rewrite Hx. reflexivity.
+  - cbn [app] in Hs. cbn [forallb] in Hd. apply andb_true_iff in Hd as [Hd Ht]. cbn [length] in Hf.
+    destruct f as [|f]; [lia|]. cbn [digits]. rewrite at_skipn, Hs. cbn [hd_error]. rewrite Hd.
+    destruct (skipn_step _ _ _ Hs) as [Hs1 _]. replace (i + 1) with (S i) in Hs1 by lia.
+    rewrite (IH f (S i) _ x t Ht Hx Hs1) by lia. cbn [length fold_left]. f_equal. lia.
+Qed.
+Lemma digs_split ds : digs ds = true -> exists d t, ds = d :: t /\ is_digit d = true /\ forallb is_digit ds = true.
+Proof.
+  unfold digs. intros H. apply andb_true_iff in H as [H _]. apply andb_true_iff in H as [Ne D].
+  destruct ds as [|d t]; [discriminate|]. exists d, t. split; [reflexivity|]. split; [|exact D].
+  cbn [forallb] in D. apply andb_true_iff in D as [D _]. exact D.
+Qed.
+
+Lemma bracket_run st ds m post : okq (QBr ds m) = true ->
+  skipn (idx st) pat = 123%N :: qtl (QBr ds m) ++ post -> idx st <= len ->
+  bracket pat st = Ok {| idx := idx st + 1 + length (qtl (QBr ds m)); parens := parens st; bmin := dec ds;
+                         bmax := qmax (QBr ds m); captures := captures st; hasbr := hasbr st |}.
+Proof.
+  intros Hk Hs Hi.
+  assert (Hk' := Hk). cbn [okq] in Hk'. apply andb_true_iff in Hk' as [Hk' _]. apply andb_true_iff in Hk' as [Hk' _].
+  apply andb_true_iff in Hk' as [D1 Hm].
+  destruct (digs_split ds D1) as (d & dt & Eds & Dd & Dall). pose proof (digs_bound ds D1) as B1.
+  destruct (skipn_step _ _ _ Hs) as [Hs1 Hlt]. replace (idx st + 1) with (S (idx st)) in Hs1 by lia.
+  unfold bracket. fold len.
+  replace (Nat.leb len (idx st)) with false by (symmetry; apply Nat.leb_gt; lia).
+  rewrite (is_at_hd _ _ _ c_lbrace Hs). change (123 =? c_lbrace)%N with true. cbn [negb].
+  (* the text after '{' : the digits, then a non-digit *)
+  assert (Hx : exists x t, qtl (QBr ds m) ++ post = ds ++ x :: t /\ is_digit x = false
+            /\ match m with BrExact => x = 125%N /\ t = post | BrOpen => x = 44%N /\ t = 125%N :: post
+               | BrTo d2 => x = 44%N /\ t = d2 ++ 125%N :: post end).
+  { cbn [qtl]. destruct m as [| |d2]; rewrite <- !app_assoc; cbn [app]; eexists _, _; (split; [reflexivity|]); split; auto. }
+  destruct Hx as (x & t & Ex & Dx & Hxm). rewrite Ex in Hs1.
+  assert (L1 : S (idx st) + length ds + length (x :: t) = len).
+  { pose proof (skipn_length (S (idx st)) pat) as L. rewrite Hs1, app_length in L. fold len in L. cbn [length] in *. lia. }
+  cbn [length] in L1.
+  replace (Nat.leb len (S (idx st))) with false by (symmetry; apply Nat.leb_gt; subst ds; cbn [length] in L1; lia).
+  rewrite (at_skipn (S (idx st))), Hs1. rewrite Eds at 1. cbn [app hd_error]. rewrite Dd. cbn [negb orb].
+  rewrite (digits_run ds len (S (idx st)) 0%N x t Dall Dx Hs1) by lia. fold (dec ds).
+  replace (umax <? dec ds)%N with false by (symmetry; apply N.ltb_ge; lia).
+  set (i := S (idx st) + length ds).
+  pose proof (skipn_app_len _ _ _ Hs1) as Hs2. fold i in Hs2.
+  replace (Nat.leb len i) with false by (symmetry; apply Nat.leb_gt; subst i; lia).
+  rewrite (is_at_hd _ _ _ c_rbrace Hs2), (is_at_hd _ _ _ c_comma Hs2).
+  destruct m as [| |d2].
+  - destruct Hxm as [-> ->]. change (125 =? c_rbrace)%N with true. cbv iota.
+    cbn [qtl qmax app]. rewrite app_length. cbn [length]. do 2 f_equal. subst i. lia.
+  - destruct Hxm as [-> ->]. change (44 =? c_rbrace)%N with false. change (44 =? c_comma)%N with true. cbn [negb]. cbv iota.
+    destruct (skipn_step _ _ _ Hs2) as [Hs3 Hlt2]. replace (i + 1) with (S i) in Hs3 by lia.
+    destruct (skipn_step _ _ _ Hs3) as [_ Hlt3].
+    replace (Nat.leb len (S i)) with false by (symmetry; apply Nat.leb_gt; lia).
+    rewrite (is_at_hd _ _ _ c_rbrace Hs3). change (125 =? c_rbrace)%N with true. cbv iota.
+    cbn [qtl qmax app]. rewrite app_length. cbn [length]. do 2 f_equal. subst i. lia.
+  - destruct Hxm as [-> ->]. change (44 =? c_rbrace)%N with false. change (44 =? c_comma)%N with true. cbn [negb]. cbv iota.
+    apply andb_true_iff in Hm as [D2 Le]. apply N.leb_le in Le.
+    destruct (digs_split d2 D2) as (e & et & Ed2 & De & Dall2). pose proof (digs_bound d2 D2) as B2.
+    destruct (skipn_step _ _ _ Hs2) as [Hs3 Hlt2]. replace (i + 1) with (S i) in Hs3 by lia.
+    assert (L3 : S i + length d2 + length (125%N :: post) = len).
+    { pose proof (skipn_length (S i) pat) as L. rewrite Hs3, app_length in L. fold len in L. cbn [length] in *. lia. }
+    cbn [length] in L3.
+    replace (Nat.leb len (S i)) with false by (symmetry; apply Nat.leb_gt; lia).
+    assert (Hs3' := Hs3). rewrite Ed2 in Hs3'. cbn [app] in Hs3'.
+    rewrite (is_at_hd _ _ _ c_rbrace Hs3').
+    assert (Ne : (e =? c_rbrace)%N = false).
+    { unfold is_digit in De. apply andb_true_iff in De as [_ De]. apply N.leb_le in De. apply N.eqb_neq. cbv [c_rbrace]. lia. }
+    rewrite Ne. rewrite (at_skipn (S i)), Hs3'. cbn [hd_error]. rewrite De. cbn [negb].
+    assert (D125 : is_digit 125%N = false) by reflexivity.
+    rewrite (digits_run d2 len (S i) 0%N 125%N post Dall2 D125 Hs3) by lia. fold (dec d2).
+    replace (umax <? dec d2)%N with false by (symmetry; apply N.ltb_ge; lia).
+    replace (dec d2 <? dec ds)%N with false by (symmetry; apply N.ltb_ge; lia).
+    pose proof (skipn_app_len _ _ _ Hs3) as Hs4.
+    replace (Nat.leb len (S i + length d2)) with false by (symmetry; apply Nat.leb_gt; lia).
+    rewrite (is_at_hd _ _ _ c_rbrace Hs4). change (125 =? c_rbrace)%N with true. cbn [negb orb].
+    cbn [qtl qmax app]. rewrite app_length. cbn [length]. rewrite app_length. cbn [length]. do 2 f_equal. subst i. lia.
+Qed.
+
+(* the state after a quantifier: only the position (and the scratch bounds) differ *)
+Definition st_after (k : nat) (st st' : cst) : Prop :=
+  idx st' = idx st + k /\ parens st' = parens st /\ hasbr st' = hasbr st /\ captures st' = captures st.
+
+Lemma quantify_char c k rel st rest : negb rel || xpath = true -> okq k = true -> head_fine rest ->
+  skipn (idx st) pat = qsym k :: qtl k ++ (if rel then [63%N] else []) ++ rest -> idx st <= len ->
+  exists st', quantify pat xpath (OAtom [c]) st = Ok (qop c k rel, st')
+    /\ st_after (1 + length (qtl k) + (if rel then 1 else 0)) st st'.
+Proof.
+  intros Hx Hk Hh Hs Hi. destruct (skipn_step _ _ _ Hs) as [Hs1 Hlt].
   unfold quantify. fold len.
   replace (Nat.leb len (idx st)) with false by (symmetry; apply Nat.leb_gt; lia).
   rewrite (at_skipn (idx st)), Hs. cbn [hd_error].
-  assert (G : (if Nat.ltb (idx (adv 1 st)) len && is_at pat (idx (adv 1 st)) 63%N
-               then if negb xpath then Err ESyntax else Ok (false, adv 1 (adv 1 st))
-               else Ok (true, adv 1 st)) = Ok (negb rel, adv (if rel then 2 else 1) st)).
-  { unfold adv at 1 2, set_idx. cbn [idx]. destruct rel; cbn [app negb] in *.
-    - cbn [orb] in Hx. rewrite Hx. destruct (skipn_step _ _ _ Hs1) as [_ Hlt1].
-      replace (Nat.ltb (idx st + 1) len) with true by (symmetry; apply Nat.ltb_lt; lia).
-      rewrite (is_at_hd _ _ _ 63%N Hs1). change (63 =? 63)%N with true. cbn [andb negb].
-      unfold adv, set_idx. cbn [idx parens bmin bmax captures hasbr]. do 2 f_equal. f_equal. lia.
+  (* the optional '?' after the quantifier, read from a state st1 placed just after it *)
+  assert (G : forall st1, skipn (idx st1) pat = (if rel then [63%N] else []) ++ rest -> idx st1 <= len ->
+             (if Nat.ltb (idx st1) len && is_at pat (idx st1) 63%N
+               then if negb xpath then Err ESyntax else Ok (false, adv 1 st1)
+               else Ok (true, st1)) = Ok (negb rel, if rel then adv 1 st1 else st1)).
+  { intros st1 Hs2 Hi2. destruct rel; cbn [app negb] in *.
+    - cbn [orb] in Hx. rewrite Hx. destruct (skipn_step _ _ _ Hs2) as [_ Hlt1].
+      replace (Nat.ltb (idx st1) len) with true by (symmetry; apply Nat.ltb_lt; lia).
+      rewrite (is_at_hd _ _ _ 63%N Hs2). change (63 =? 63)%N with true. reflexivity.
     - destruct rest as [|c2 t2].
-      + apply skipn_nil_len in Hs1; [|lia]. rewrite Hs1, Nat.ltb_irrefl. reflexivity.
-      + rewrite (is_at_hd _ _ _ 63%N Hs1).
+      + apply skipn_nil_len in Hs2; [|lia]. rewrite Hs2, Nat.ltb_irrefl. reflexivity.
+      + rewrite (is_at_hd _ _ _ 63%N Hs2).
         assert (c2 =? 63 = false)%N by (apply (head_fine_nq c2 t2 Hh)).
         rewrite H, andb_false_r. reflexivity. }
-  destruct k; cbn [qsym]; cbv [c_qmark c_star c_plus c_lbrace]; cbn [N.eqb Pos.eqb orb rbind];
+  destruct k as [| | |ds m].
+  1-3: cbn [qsym qtl app length] in *; cbv [c_qmark c_star c_plus c_lbrace]; cbn [N.eqb Pos.eqb orb rbind];
     cbn [is_bol_eol mes]; change (zls_never =? zls_any)%N with false; cbv iota; cbn [rbind];
-    rewrite G; cbn [rbind]; destruct rel; reflexivity.
+    rewrite (G (adv 1 st)) by (unfold adv, set_idx; cbn [idx]; first [exact Hs1|lia]); cbn [rbind];
+    destruct rel; (eexists; split; [reflexivity|]); unfold st_after, adv, set_idx; cbn [idx parens hasbr captures];
+    repeat split; lia.
+  (* a counted quantifier *)
+  cbn [qsym] in *. change (123 =? c_qmark)%N with false. change (123 =? c_star)%N with false.
+  change (123 =? c_plus)%N with false. change (123 =? c_lbrace)%N with true. cbn [orb andb]. cbv iota.
+  rewrite (bracket_run st ds m _ Hk Hs Hi). cbn [rbind].
+  set (st1 := {| idx := idx st + 1 + length (qtl (QBr ds m)); parens := parens st; bmin := dec ds;
+                 bmax := qmax (QBr ds m); captures := captures st; hasbr := hasbr st |}).
+  cbn [is_bol_eol mes]. change (zls_never =? zls_any)%N with false. cbv iota. cbn [rbind].
+  assert (Hs2 : skipn (idx st1) pat = (if rel then [63%N] else []) ++ rest).
+  { subst st1. cbn [idx]. rewrite <- Nat.add_assoc. replace (1 + length (qtl (QBr ds m))) with (length (123%N :: qtl (QBr ds m))) by reflexivity.
+    apply skipn_app_len. rewrite Hs. reflexivity. }
+  assert (Hi2 : idx st1 <= len).
+  { subst st1. cbn [idx]. pose proof (skipn_length (idx st) pat) as L. rewrite Hs in L. fold len in L.
+    cbn [length] in L. rewrite app_length in L. lia. }
+  change (is_at pat (idx st1) c_qmark) with (is_at pat (idx st1) 63%N).
+  rewrite (G st1 Hs2 Hi2). cbn [rbind]. change (123 =? c_lbrace)%N with true. cbv iota.
+  destruct (okq_facts _ Hk) as (Pos & Le & _ & _ & N11).
+  replace (bmin (if rel then adv 1 st1 else st1)) with (qmin (QBr ds m)) by (destruct rel; reflexivity).
+  replace (bmax (if rel then adv 1 st1 else st1)) with (qmax (QBr ds m)) by (destruct rel; reflexivity).
+  replace (qmax (QBr ds m) =? 0)%N with false by (symmetry; apply N.eqb_neq; lia).
+  rewrite N11. cbn [match_length opt_N_eqb]. 
+  destruct rel; (eexists; split; [cbn [negb]; reflexivity|]);
+  unfold st_after; subst st1; unfold adv, set_idx; cbn [idx parens hasbr captures]; repeat split; lia.
 Qed.
 
 Lemma piece_runq f st c0 cs c k t : forallb ordinary (c0 :: cs) = true -> ordinary c = true ->
@@ -667,12 +841,13 @@ Proof.
   - unfold set_idx. cbn [idx]. rewrite (skipn_app_len _ _ _ Hs). cbn. auto.
 Qed.
 
-Lemma piece_qchar f st c k rel rest : ordinary c = true -> negb rel || xpath = true -> head_fine rest ->
-  skipn (idx st) pat = c :: qsym k :: (if rel then [63%N] else []) ++ rest -> idx st <= len ->
-  piece pat xpath ci single (S (S f)) st = Ok (qop c k rel, adv (if rel then 3 else 2) st).
+Lemma piece_qchar f st c k rel rest : ordinary c = true -> negb rel || xpath = true -> okq k = true -> head_fine rest ->
+  skipn (idx st) pat = c :: qsym k :: qtl k ++ (if rel then [63%N] else []) ++ rest -> idx st <= len ->
+  exists st', piece pat xpath ci single (S (S f)) st = Ok (qop c k rel, st')
+    /\ st_after (2 + length (qtl k) + (if rel then 1 else 0)) st st'.
 Proof.
-  intros Oc Hx Hh Hs Hi. destruct (skipn_step _ _ _ Hs) as [Hs1 Hlt].
-  assert (Hl : idx st + 1 + length (qsym k :: (if rel then [63%N] else []) ++ rest) = len).
+  intros Oc Hx Hk Hh Hs Hi. destruct (skipn_step _ _ _ Hs) as [Hs1 Hlt].
+  assert (Hl : idx st + 1 + length (qsym k :: qtl k ++ (if rel then [63%N] else []) ++ rest) = len).
   { pose proof (skipn_length (idx st) pat) as L. rewrite Hs in L. fold len in L. cbn [length] in *. lia. }
   destruct (ordinary_tests c Oc) as (T1 & T2 & T3 & T4 & T5 & T6 & T7 & T8 & T9 & T10 & T11 & T12 & T13 & T14).
   rewrite piece_S, parse_terminal_S, (at_skipn (idx st)), Hs. cbn [hd_error].
@@ -680,8 +855,10 @@ Proof.
   unfold parse_atom. fold len.
   replace (len + 2) with (S (S len)) by lia.
   rewrite (atom_loop_single len st c k _ Oc Hs Hi). cbn [rbind rev app].
-  rewrite (quantify_char c k rel (adv 1 st) rest Hx Hh Hs1) by (unfold adv, set_idx; cbn [idx]; lia).
-  unfold adv, set_idx. cbn [idx parens bmin bmax captures hasbr]. do 2 f_equal. destruct rel; f_equal; lia.
+  destruct (quantify_char c k rel (adv 1 st) rest Hx Hk Hh Hs1) as (st' & E & A1 & A2 & A3 & A4);
+    [unfold adv, set_idx; cbn [idx]; lia|].
+  exists st'. split; [exact E|]. unfold adv, set_idx in *. cbn [idx parens hasbr captures] in *.
+  unfold st_after. repeat split; try lia; assumption.
 Qed.
 
 Lemma qop_good c k rel : good (qop c k rel).
@@ -692,19 +869,19 @@ Proof.
   destruct rel; cbn [simple]; (split; [exact I|split; [reflexivity|exact H]]).
 Qed.
 
-Lemma qop_sem c k rel p q : p <= n -> (In q (R (qop c k rel) p) <-> In q (Dq input ci multi c k rel p)).
+Lemma qop_sem c k rel p q : okq k = true -> p <= n -> (In q (R (qop c k rel) p) <-> In q (Dq input ci multi c k rel p)).
 Proof.
-  intros Hp. unfold R, Dq.
+  intros Hk Hp. unfold R, Dq. destruct (okq_facts k Hk) as (Pos & Le & Mx & Wf & _).
   apply (lowersq_ends input ci multi false K (fl_of ci multi) eq_refl eq_refl Hfit); auto.
   - (* plainq *)
     assert (H : forall p0 q0, In q0 (Rop input ci multi (OAtom [c]) p0) -> q0 = p0 + N.to_nat 1).
     { intros p0 q0. cbn [Rop length]. destruct (Nat.ltb (length input) (p0 + 1)); [intros []|].
       destruct (starts_with _ _ _); [|intros []]. intros [<-|[]]. reflexivity. }
     unfold qop. destruct rel; cbn [plainq]; (split; [exact I|]); (split; [reflexivity|]);
-      (split; [destruct k; reflexivity|]); (split; [destruct k; cbn; try discriminate; try lia|exact H]).
-  - cbn [quant_wf]. split; [exact I|]. destruct k; cbn; auto; lia.
+      (split; [exact Pos|]); (split; [exact Le|exact H]).
+  - cbn [quant_wf]. split; [exact I|exact Wf].
   - unfold qop. destruct rel; cbn [lowersq unnc negb]; [exists (RChar c), false|exists (RChar c), true];
-      (split; [destruct k; reflexivity|]); right; exists c; split; reflexivity.
+      (split; [rewrite Mx; reflexivity|]); right; exists c; split; reflexivity.
 Qed.
 
 (* --- the same facts as equalities of lists (order and multiplicity) --- *)
@@ -744,17 +921,17 @@ Proof.
   - apply R_make_sequence_eq; auto.
   - cbn [flat_map]. rewrite app_nil_r. reflexivity.
 Qed.
-Lemma qop_eq c k rel p : p <= n -> R (qop c k rel) p = DqO input ci multi c k rel p.
+Lemma qop_eq c k rel p : okq k = true -> p <= n -> R (qop c k rel) p = DqO input ci multi c k rel p.
 Proof.
-  intros Hp. unfold R, DqO. symmetry.
+  intros Hk Hp. unfold R, DqO. symmetry. destruct (okq_facts k Hk) as (Pos & Le & Mx & Wf & _).
   apply (lowerso_order input ci multi false K (fl_of ci multi) eq_refl eq_refl Hfit); auto.
   - assert (H : forall p0, Rop input ci multi (OAtom [c]) p0 = [] \/ Rop input ci multi (OAtom [c]) p0 = [p0 + N.to_nat 1]).
     { intros p0. cbn [Rop length]. destruct (Nat.ltb (length input) (p0 + 1)); [left; reflexivity|].
       destruct (starts_with _ _ _); [right|left]; reflexivity. }
     unfold qop. destruct rel; cbn [plaino]; (split; [exact I|]); (split; [reflexivity|]);
-      (split; [destruct k; reflexivity|]); (split; [destruct k; cbn; try discriminate; try lia|exact H]).
+      (split; [exact Pos|]); (split; [exact Le|exact H]).
   - unfold qop. destruct rel; cbn [lowerso unnc negb]; exists (RChar c);
-      (split; [destruct k; reflexivity|]); right; exists c; split; reflexivity.
+      (split; [rewrite Mx; reflexivity|]); right; exists c; split; reflexivity.
 Qed.
 Lemma anchor_eq (eol : bool) p : p <= n -> R (if eol then OEol else OBol) p = DanO input ci multi eol p.
 Proof.
@@ -1050,16 +1227,17 @@ Proof.
       * apply (Sem1 p m1 Hp). eauto.
       * apply Semg; [|exact Hm]. apply (lit_le input ci cs m0 m1) in Hm1. lia.
   - (* BQ *) intros cs c k rel b' IHb Hok post st cur fuel Hs Hi Ht Hf Hg.
-    cbn [ok_b] in Hok. apply andb_true_iff in Hok as [Hok Okb]. apply andb_true_iff in Hok as [Hok Hrx].
+    cbn [ok_b] in Hok. apply andb_true_iff in Hok as [Hok Okb]. apply andb_true_iff in Hok as [Hok Hk].
+    apply andb_true_iff in Hok as [Hok Hrx].
     apply andb_true_iff in Hok as [Ocs Oc]. cbn [show_b] in Hs, Hf |- *.
-    set (ropt := if rel then [63%N] else []) in *. set (rest := show_b b') in *.
-    assert (Lsh : length (cs ++ c :: qsym k :: ropt ++ rest) = length cs + 2 + length ropt + length rest).
+    set (ropt := if rel then [63%N] else []) in *. set (rest := show_b b') in *. set (qt := qtl k) in *.
+    assert (Lsh : length (cs ++ c :: qsym k :: qt ++ ropt ++ rest) = length cs + 2 + length qt + length ropt + length rest).
     { rewrite !app_length. cbn [length]. rewrite !app_length. lia. }
     rewrite Lsh in Hf |- *.
-    assert (Hs' : skipn (idx st) pat = cs ++ c :: qsym k :: ropt ++ rest ++ post).
+    assert (Hs' : skipn (idx st) pat = cs ++ c :: qsym k :: qt ++ ropt ++ rest ++ post).
     { rewrite Hs. rewrite <- app_assoc. cbn [app]. rewrite <- !app_assoc. reflexivity. }
     clear Hs. rename Hs' into Hs.
-    assert (Hlen : idx st + (length cs + (2 + (length ropt + (length rest + length post)))) = len).
+    assert (Hlen : idx st + (length cs + (2 + (length qt + (length ropt + (length rest + length post))))) = len).
     { pose proof (skipn_length (idx st) pat) as L. rewrite Hs in L. fold len in L.
       rewrite app_length in L. cbn [length] in L. rewrite !app_length in L. lia. }
     destruct (run_prefix_q cs c k _ st cur fuel Ocs Oc Hs Hi ltac:(lia) Hg)
@@ -1074,38 +1252,37 @@ Proof.
     rewrite branch_loop_S. fold len.
     replace (Nat.ltb (idx st1) len) with true by (symmetry; apply Nat.ltb_lt; exact Hlt1).
     rewrite (is_at_hd _ _ _ c_bar Hs1), (is_at_hd _ _ _ c_rparen Hs1), T8, T5. cbn [negb andb].
-    rewrite (piece_qchar f st1 c k rel (rest ++ post) Oc Hrx Hh Hs1 Hi1'). cbn [rbind]. fold (push cur1 (qop c k rel)).
-    set (st2 := adv (if rel then 3 else 2) st1).
-    assert (Hi2 : idx st2 = idx st1 + 2 + length ropt).
-    { subst st2 ropt. unfold adv, set_idx. destruct rel; cbn [idx length]; lia. }
+    destruct (piece_qchar f st1 c k rel (rest ++ post) Oc Hrx Hk Hh Hs1 Hi1') as (st2 & Ep & Hi2 & Hp2 & Hb2 & _).
+    rewrite Ep. cbn [rbind]. fold (push cur1 (qop c k rel)). fold qt ropt in Hi2.
+    replace (if rel then 1 else 0) with (length ropt) in Hi2 by (subst ropt; destruct rel; reflexivity).
     assert (Hs2 : skipn (idx st2) pat = rest ++ post).
-    { rewrite Hi2. replace (idx st1 + 2 + length ropt) with (idx st1 + length (c :: qsym k :: ropt)) by (cbn [length]; lia).
-      apply (skipn_app_len (idx st1) (c :: qsym k :: ropt)). rewrite Hs1. cbn [app]. reflexivity. }
+    { rewrite Hi2. replace (2 + length qt + length ropt) with (length (c :: qsym k :: qt ++ ropt)) by (cbn [length]; rewrite app_length; lia).
+      apply (skipn_app_len (idx st1) (c :: qsym k :: qt ++ ropt)). rewrite Hs1. cbn [app]. rewrite <- app_assoc. reflexivity. }
     destruct (IHb Okb post st2 (push cur1 (qop c k rel)) (S (S f)) Hs2 ltac:(lia) Ht ltac:(fold rest; lia)
                 (push_good _ _ Hg1 (qop_good c k rel)))
       as (r & st' & E & Hi' & Hb' & Gr & Sem' & Fr' & Eq').
     exists r, st'. split; [exact E|]. fold rest in Hi'. split; [lia|].
-    split; [rewrite Hb'; subst st2; unfold adv, set_idx; cbn [hasbr]; exact Hb1|]. split; [exact Gr|].
+    split; [rewrite Hb', Hb2; exact Hb1|]. split; [exact Gr|].
     split.
     2:{ split.
         - intros H1 Hfr.
           assert (Fq : framed (qop c k rel)) by (unfold qop; destruct rel; exact I).
-          destruct (Fr' ltac:(subst st2; unfold adv, set_idx; cbn [parens]; lia) (push_fr _ _ (Fr1 Hfr) Fq)) as [Fr Hp'].
-          split; [exact Fr|]. subst st2. unfold adv, set_idx in Hp'. cbn [parens] in Hp'. lia.
+          destruct (Fr' ltac:(lia) (push_fr _ _ (Fr1 Hfr) Fq)) as [Fr Hp'].
+          split; [exact Fr|]. lia.
         - intros p Hp. rewrite (Eq' p Hp), (push_eq cur1 (qop c k rel) p Hg1 (qop_good c k rel)), (Eq1 p Hp). cbn [DbO].
           rewrite !flat_map_assoc. apply fm_ext_in. intros m Hm. rewrite <- flat_map_assoc. f_equal.
-          apply fm_ext_in. intros k0 Hk0. apply qop_eq. apply lit_le in Hk0. tauto. }
+          apply fm_ext_in. intros k0 Hk0. apply qop_eq; [exact Hk|]. apply lit_le in Hk0. tauto. }
     intros p q Hp. rewrite (Sem' p q Hp). cbn [Db]. split.
     + intros (m & Hm & Hq). apply push_sem in Hm; auto using qop_good. destruct Hm as (m1 & Hm1 & Hm).
       apply (Sem1 p m1 Hp) in Hm1. destruct Hm1 as (m0 & Hm0 & Hm1).
       exists m0. split; [exact Hm0|]. apply in_flat_map. exists m. split; [|exact Hq].
       apply in_flat_map. exists m1. split; [exact Hm1|].
-      apply qop_sem; [|exact Hm]. apply (lit_le input ci cs m0 m1) in Hm1. lia.
+      apply qop_sem; [exact Hk| |exact Hm]. apply (lit_le input ci cs m0 m1) in Hm1. lia.
     + intros (m0 & Hm0 & Hq). apply in_flat_map in Hq. destruct Hq as (m & Hm & Hq).
       apply in_flat_map in Hm. destruct Hm as (m1 & Hm1 & Hm).
       exists m. split; [|exact Hq]. apply push_sem; auto using qop_good. exists m1. split.
       * apply (Sem1 p m1 Hp). eauto.
-      * apply qop_sem; [|exact Hm]. apply (lit_le input ci cs m0 m1) in Hm1. lia.
+      * apply qop_sem; [exact Hk| |exact Hm]. apply (lit_le input ci cs m0 m1) in Hm1. lia.
   - (* BAn *) intros cs eol b' IHb Hok post st cur fuel Hs Hi Ht Hf Hg.
     cbn [ok_b] in Hok. apply andb_true_iff in Hok as [Hok Okb]. apply andb_true_iff in Hok as [Ocs Hx].
     cbn [show_b] in Hs, Hf |- *.
@@ -1230,9 +1407,9 @@ Proof.
     + intros [(x & Hx & Hq)|[Hq|Hq]]; [left; exists x; split; [right; exact Hx|exact Hq]|left; exists o; split; [left; reflexivity|apply So; exact Hq]|right; exact Hq].
 Qed.
 
-Lemma DqO_le c k rel p q : p <= n -> In q (DqO input ci multi c k rel p) -> q <= n.
+Lemma DqO_le c k rel p q : okq k = true -> p <= n -> In q (DqO input ci multi c k rel p) -> q <= n.
 Proof.
-  intros Hp H. rewrite <- qop_eq in H by exact Hp. eapply (Rop_le_n input ci multi false K); [apply qop_good|exact Hp|exact H].
+  intros Hk Hp H. rewrite <- qop_eq in H by assumption. eapply (Rop_le_n input ci multi false K); [apply qop_good|exact Hp|exact H].
 Qed.
 Lemma DanO_le (eol : bool) p q : p <= n -> In q (DanO input ci multi eol p) -> q <= n.
 Proof.
@@ -1240,21 +1417,25 @@ Proof.
 Qed.
 
 (* the ordered denotation stays inside the input *)
-Lemma DO_le : (forall b p q, p <= n -> In q (DbO input ci multi b p) -> q <= n)
-           /\ (forall a p q, p <= n -> In q (DaO input ci multi a p) -> q <= n).
+Lemma DO_le : (forall b, ok_b xpath b = true -> forall p q, p <= n -> In q (DbO input ci multi b p) -> q <= n)
+           /\ (forall a, ok_a xpath a = true -> forall p q, p <= n -> In q (DaO input ci multi a p) -> q <= n).
 Proof.
   apply branch_alt_ind.
-  - intros cs p q Hp H. cbn [DbO] in H. apply lit_le in H. tauto.
-  - intros cs cap a IHa b IHb p q Hp H. cbn [DbO] in H. apply in_flat_map in H as (m & Hm & H).
-    apply in_flat_map in Hm as (m1 & Hm1 & Hm). apply lit_le in Hm1. eapply IHb; [|exact H]. eapply IHa; [|exact Hm]. tauto.
-  - intros cs c k rel b IHb p q Hp H. cbn [DbO] in H. apply in_flat_map in H as (m & Hm & H).
-    apply in_flat_map in Hm as (m1 & Hm1 & Hm). apply lit_le in Hm1. eapply IHb; [|exact H].
-    rewrite <- qop_eq in Hm by tauto. eapply (Rop_le_n input ci multi false K); [apply qop_good| |exact Hm]. tauto.
-  - intros cs eol b IHb p q Hp H. cbn [DbO] in H. apply in_flat_map in H as (m & Hm & H).
-    apply in_flat_map in Hm as (m1 & Hm1 & Hm). apply lit_le in Hm1. eapply IHb; [|exact H].
+  - intros cs _ p q Hp H. cbn [DbO] in H. apply lit_le in H. tauto.
+  - intros cs cap a IHa b IHb Hok p q Hp H. cbn [ok_b] in Hok. apply andb_true_iff in Hok as [Hok Okb].
+    apply andb_true_iff in Hok as [_ Oka]. cbn [DbO] in H. apply in_flat_map in H as (m & Hm & H).
+    apply in_flat_map in Hm as (m1 & Hm1 & Hm). apply lit_le in Hm1. eapply (IHb Okb); [|exact H]. eapply (IHa Oka); [|exact Hm]. tauto.
+  - intros cs c k rel b IHb Hok p q Hp H. cbn [ok_b] in Hok. apply andb_true_iff in Hok as [Hok Okb].
+    apply andb_true_iff in Hok as [_ Hk]. cbn [DbO] in H. apply in_flat_map in H as (m & Hm & H).
+    apply in_flat_map in Hm as (m1 & Hm1 & Hm). apply lit_le in Hm1. eapply (IHb Okb); [|exact H].
+    eapply DqO_le; [exact Hk| |exact Hm]. tauto.
+  - intros cs eol b IHb Hok p q Hp H. cbn [ok_b] in Hok. apply andb_true_iff in Hok as [_ Okb].
+    cbn [DbO] in H. apply in_flat_map in H as (m & Hm & H).
+    apply in_flat_map in Hm as (m1 & Hm1 & Hm). apply lit_le in Hm1. eapply (IHb Okb); [|exact H].
     rewrite <- anchor_eq in Hm by tauto. eapply (Rop_le_n input ci multi false K); [apply anchor_good| |exact Hm]. tauto.
-  - intros b IHb p q Hp H. exact (IHb p q Hp H).
-  - intros b IHb a IHa p q Hp H. cbn [DaO] in H. apply in_app_iff in H as [H|H]; eauto.
+  - intros b IHb Hok p q Hp H. exact (IHb Hok p q Hp H).
+  - intros b IHb a IHa Hok p q Hp H. cbn [ok_a] in Hok. apply andb_true_iff in Hok as [Okb Oka].
+    cbn [DaO] in H. apply in_app_iff in H as [H|H]; eauto.
 Qed.
 
 (* the whole pattern *)
